@@ -1,4 +1,4 @@
-CONSTANTS MaxTx = 4  MaxH = 7  Level = 2
+CONSTANTS DispModes = {FALSE, TRUE}  MaxTx = 4  MaxH = 7  Level = 2
 INIT Init
 NEXT NextCover
 VIEW view
